@@ -56,7 +56,17 @@ OPS = CTORS + [
     "laplace(bc)", "gradient(bc)", "laplace(bc,out=b)", "gradient(bc,out=b)",
     "dot(b)", "dot(b,out=c)", "outer_product(b)", "outer_product(b,out=c)",
     "interpolate_to_grid", "storage[0]",
+    # construction from live objects and further results that must be new buffers
+    "Cls(grid,f)", "Cls(grid,f,dtype=complex)", "FC(fc)", "FC(fc,copy_fields=True)",
+    "to_scalar()", "smooth()",
 ]
+# rarer operations, explored in the thorough tier only
+OPS_THOROUGH_ONLY = [
+    "smooth(out=b)", "trace()", "transpose()", "transpose(inplace=True)", "symmetrize()",
+    "symmetrize(inplace=True)", "project/slice",
+]
+MODEL_AXES = {"UnitGrid": 1, "CartesianGrid": 2, "PolarSymGrid": 1, "CylindricalSymGrid": 2}
+SLICEABLE = {"CartesianGrid", "CylindricalSymGrid"}  # project()/slice() are implemented for these only
 INPLACE = {"a+=b": "add", "a-=1.5": "subtract", "a*=b": "multiply", "a/=2.0": "true_divide", "a**=2": "power"}
 
 
@@ -85,8 +95,8 @@ class Effect:
 
 
 class Model:
-    def __init__(self, dim):
-        self.dim, self.nbuf, self.handles = dim, 0, []
+    def __init__(self, dim, sliceable=False):
+        self.dim, self.nbuf, self.handles, self.sliceable = dim, 0, [], sliceable
 
     def newbuf(self):
         self.nbuf += 1
@@ -179,6 +189,18 @@ class Model:
             return [(i, j, k) for i in idx for j in idx for k in idx
                     if H[i].kind == "V" and H[j].kind == "V" and H[k].kind == "T"
                     and (H[k].cx or not (H[i].cx or H[j].cx))]
+        if op in ("Cls(grid,f)", "Cls(grid,f,dtype=complex)", "to_scalar()"):
+            return [(i,) for i in fld]
+        if op in ("FC(fc)", "FC(fc,copy_fields=True)"):
+            return [(i,) for i in col]
+        if op == "smooth()":  # the result is always allocated real (see assumptions)
+            return [(i,) for i in idx if not H[i].cx]
+        if op == "smooth(out=b)":
+            return [(i, j) for i in idx for j in idx if same(H[i], H[j]) and H[j].cx == H[i].cx]  # scipy does not mix
+        if op in ("trace()", "transpose()", "transpose(inplace=True)", "symmetrize()", "symmetrize(inplace=True)"):
+            return [(i,) for i in idx if H[i].kind == "T"]
+        if op == "project/slice":
+            return [(i,) for i in idx if H[i].kind == "S"] if self.sliceable else []
         if op == "interpolate_to_grid":  # not implemented for tensors
             return [(i,) for i in idx if all(k in "SV" for k in H[i].msig())]
         raise ValueError(op)
@@ -249,6 +271,30 @@ class Model:
             return Effect(("same", b), wv=b.cells(), wg=a.cells(), outcome="out")
         if op == "dot(b)":
             return new(self.fresh("S" if b.kind == "V" else "V", a.cx or b.cx, op))
+        if op == "Cls(grid,f)":
+            return new(self.duplicate(a, op))
+        if op == "Cls(grid,f,dtype=complex)":
+            return new(self.duplicate(a, op, True))
+        if op == "FC(fc)":  # "support assigning a field collection": its member objects are re-linked
+            mem = list(a.members)
+            buf, off, cx = self.newbuf(), 0, any(x.cx for x in mem)
+            for x in mem:
+                x.buf, x.off, x.cx = buf, off, cx
+                off += x.n
+            return new(MObj("C", cx, buf, 0, off, op, mem, False), "relink", relink=True)
+        if op == "FC(fc,copy_fields=True)":
+            return new(self.collection([(m.kind, m.cx) for m in a.members], op, True), "copying collection")
+        if op in ("to_scalar()", "trace()"):
+            return new(self.fresh("S", a.cx, op))
+        if op in ("smooth()", "transpose()", "symmetrize()"):
+            return new(self.duplicate(a, op))
+        if op == "smooth(out=b)":  # collections smooth member by member into the member objects of out
+            tgt = [c for m in b.members for c in m.cells()] if b.kind == "C" else b.cells()
+            return Effect(("same", b), wv=tgt, outcome="out")
+        if op in ("transpose(inplace=True)", "symmetrize(inplace=True)"):
+            return Effect(("same", a), wv=a.cells(), outcome="write valid cells")
+        if op == "project/slice":
+            return Effect(None, outcome="results on a sub-grid")
         if op == "outer_product(b)":
             return new(self.fresh("T", False, op))
         if op in ("dot(b,out=c)", "outer_product(b,out=c)"):
@@ -401,6 +447,36 @@ class World:
             return a.outer_product(b, out=o[2])
         if op == "interpolate_to_grid":
             return a.interpolate_to_grid(self.grid2)
+        if op == "Cls(grid,f)":
+            return type(a)(g, a)
+        if op == "Cls(grid,f,dtype=complex)":
+            return type(a)(g, a, dtype=complex)
+        if op == "FC(fc)":
+            return pde.FieldCollection(a)
+        if op == "FC(fc,copy_fields=True)":
+            return pde.FieldCollection(a, copy_fields=True)
+        if op == "to_scalar()":
+            return a.to_scalar()
+        if op == "smooth()":
+            return a.smooth(0.7)
+        if op == "smooth(out=b)":
+            return a.smooth(0.7, out=b)
+        if op == "trace()":
+            return a.trace()
+        if op == "transpose()":
+            return a.transpose()
+        if op == "transpose(inplace=True)":
+            return a.transpose(inplace=True)
+        if op == "symmetrize()":
+            return a.symmetrize()
+        if op == "symmetrize(inplace=True)":
+            return a.symmetrize(inplace=True)
+        if op == "project/slice":  # results live on a sub-grid: checked here, not kept as handles
+            ax = self.grid.axes[0]
+            for name, r in (("project()", a.project(ax)), ("slice()", a.slice({ax: "mid"}))):
+                if any(np.shares_memory(r._data_full, x._data_full) for x in self.h):
+                    self.extra.append(f"result of {name} aliases a live handle")
+            return None
         if op == "storage[0]":
             st = pde.MemoryStorage()
             st.start_writing(a)
@@ -581,8 +657,9 @@ def step(W, M, op, args, check=True):
             got = R[args[0]].data
         elif op == "a.data=arr":
             exp, got = W.vals(tv.shape, 90), R[args[0]].data
-        else:  # fc[0]=b : through the collection (model: member 0 lives where the model says)
+        else:
             exp, got = None, None
+        if op == "fc[0]=b":  # through the collection (model: member 0 lives where the model says)
             m0 = H[args[0]].members[0]
             if m0.buf == H[args[0]].buf:
                 got = R[args[0]].data[m0.off:m0.off + m0.n]
@@ -689,7 +766,7 @@ def safe_step(W, M, op, args, check=True):
 
 def _replay(grid, seed, hist, check_all=False, check_last=False):
     W = World(grid, seed)
-    M = Model(MODEL_DIM[grid])
+    M = Model(MODEL_DIM[grid], grid in SLICEABLE)
     assert W.dim == M.dim
     viol = []
     for i, (op, args) in enumerate(hist):
@@ -730,6 +807,7 @@ def bfs(case):
     of every merged state are expanded and must have the same successors; every violation is
     confirmed by re-executing exactly its history on fresh objects."""
     grid, first, depth, seed = case["grid"], case["first"], case["depth"], case["seed"]
+    ops = OPS + (OPS_THOROUGH_ONLY if case.get("all_ops") else [])
     root = [[first, []]]
     W, M, viol = _replay(grid, seed, root, check_last=True)
     executed = 1
@@ -768,7 +846,7 @@ def bfs(case):
             executed += len(hist)
             n0 = len(W.h)
             succ = []
-            for op in OPS:
+            for op in ops:
                 for args in M.choices(op):
                     h2 = hist + [[op, list(args)]]
                     v, eff = safe_step(W, M, op, args)
@@ -836,7 +914,9 @@ def main(run):
     # DESIGN.md asks for depth 3 / 4; state merging makes 4 / 5 affordable
     depth = 4 if run.tier == "quick" else 5
     weight = {"T": 0, "V": 1, "S": 2}
-    cases = [{"grid": g, "first": op, "depth": depth, "seed": run.seed}
+    all_ops = run.tier != "quick"
+    ops = OPS + (OPS_THOROUGH_ONLY if all_ops else [])
+    cases = [{"grid": g, "first": op, "depth": depth, "seed": run.seed, "all_ops": all_ops}
              for g in reversed(GRIDS) for op in sorted(CTORS, key=lambda o: weight[o[0]])]
     res = run.explore("checks.c15:bfs", cases, mode="I", part="bfs", chunksize=1, limit=6000, collect=True)
     tot = collections.Counter()
@@ -851,7 +931,8 @@ def main(run):
             per_grid[info["grid"]][f] += info[f]
         outcomes.update(info["outcomes"])
     run.notes["depth_bound"] = depth
-    run.notes["operation_alphabet"] = OPS
+    run.notes["operation_alphabet"] = ops
+    run.notes["operations_in_thorough_only"] = OPS_THOROUGH_ONLY
     run.notes["histories_represented"] = tot["histories"]
     run.notes["merged_states_validated"] = tot["merge_checks"]
     run.notes["per_grid"] = {k: dict(v) for k, v in per_grid.items()}
@@ -869,6 +950,11 @@ def main(run):
         "written into a real target); outer_product without out= only for real operands because its result is "
         "always allocated real (complex operands raise TypeError - not a memory property)",
         "vector Laplace / tensor interpolation are not in the alphabet (not implemented on all families)",
+        "smooth() without out= only for real fields because its result is always allocated real (complex fields "
+        "raise RuntimeError - not a memory property); project()/slice() exist on Cartesian/cylindrical grids only and "
+        "their results (sub-grid) are compared with every live handle inside the operation, not kept as handles",
+        "FieldCollection(fc) re-links the member objects of fc (documented convenience: fields = fc.fields); a "
+        "collection smooths member by member into the member objects of out",
         "operators set the ghost cells of their source (documented); everything else an operation does not "
         "document to write must stay bitwise unchanged, including ghost cells",
         "dtypes are observed, not modelled (a collection whose members were moved into a later collection builds "
@@ -879,7 +965,7 @@ def main(run):
         "VERIF_SEED only selects the generic contents written into the fields",
     ]
     return (
-        f"BFS over all histories of the {len(OPS)}-operation alphabet with all type-correct operand choices up to "
+        f"BFS over all histories of the {len(ops)}-operation alphabet with all type-correct operand choices up to "
         f"depth {depth} from 4 grid families x 6 constructions; after every transition every pair of live handles "
         "(np.shares_memory), every write probe, the layout of every collection, the data view, the set of written "
         "cells and the class/dtype are compared with the buffer/region reference model; distinct = distinct canonical "
